@@ -4,7 +4,12 @@ Plug-in for bin/check (loaded by bin/checks.py). One run:
   1. lake build of P3R.Props.C05 / P3R.Witness.C05 / p3r_driver_c05 + axiom audit (bin/check),
   2. `p3r-harness transcript`: generated challenger histories on the 12 configurations x
      {recompose table on, off}; the real DuplexChallenger and the real CircuitChallenger (run
-     through CircuitRunner::run with every observed value a public input); a recording wrapper
+     through CircuitRunner::run; observed values are public inputs or DERIVED targets -- `od` ops:
+     observe_ext of an earlier sampled challenge, of a product / sum / mul_add of earlier values, of
+     select(sampled bit, u, v) with known/unknown-coefficient branches in both orders, of a value
+     recomposed from base samples, of a target observed before -- natively the value is computed
+     from the native challenger's own samples; for the Lean models an `od` is lowered to an `oe` of
+     that native value); a recording wrapper
      around the real Poseidon1/Poseidon2 instance yields the permutation table of the case;
      implementation oracle = circuit outputs vs native outputs (violations),
   3. `p3r_driver_c05` runs both Lean models on the same histories with the recorded table;
@@ -101,7 +106,11 @@ def run(ctx):
                 v["no_input"] = False
     cov = {"evaluations": evaluations, "programs": evaluations, "distinct_nontrivial": distinct,
            "rule": "random challenger histories (bursts of observe / observe_ext / sample / sample_ext biased to RATE-1, RATE, RATE+1, 2*RATE; "
-                   "sample_bits incl. 0 and the largest width native accepts; check_pow with ground and deliberately failing witnesses; clear), "
+                   "sample_bits incl. 0 and the largest width native accepts; check_pow with ground and deliberately failing witnesses; clear; "
+                   "derived observes (~13% of the bursts, input_distribution derived.*): observe_ext of a target built with the real builder from earlier "
+                   "values of the same history - an earlier sample_ext, add / mul / mul_add of samples, public inputs and earlier derived targets, "
+                   "select(bit of an earlier sample_bits, t, s) with t/s known- or unknown-coefficient (all four shapes, derived.sel.t=*.s=*), "
+                   "recompose of base samples, the same target again - the native value being computed from the native samples), "
                    "round-robin over 12 configurations (BabyBear/KoalaBear D4 and D1, Goldilocks D2, each with Poseidon2 and Poseidon1, plus a D1 permutation lifted into a D4 circuit for BabyBear-Poseidon2 and KoalaBear-Poseidon1) x recompose table on/off, corpus first; a case is non-trivial when at least one "
                    "permutation was executed and at least one value was sampled; distinct = distinct (configuration, mode, history) texts",
            "samples": samples[:3], "input_distribution": hist,
@@ -130,6 +139,8 @@ CHECK = {
         "D divides WIDTH on the extension path, 0 < RATE < WIDTH (true of every supported configuration)",
         "sample_bits widths are those the native challenger accepts ((1 << bits) < ORDER); for wider requests native panics and nothing is claimed",
         "observed base values are base-field elements (native observe takes F); observe_ext takes D coefficients",
+        "derived observed targets are built with add / mul / mul_add / select (selector = a sampled bit) / recompose_base_coeffs_to_ext over earlier "
+        "sampled and observed values; select with a non-boolean selector and sub / div derived targets are not generated",
         "no other user of the same Poseidon table runs between two permutations of a compact-D1 challenger (chain state last_output_normal is shared per op type)",
         "the quintic trinomial extension is not exercised by the runs (a D=1 permutation lifted into a binomial D=4 circuit is); the theorems cover any D on the compact path and binomial extensions on the ALU recomposition path",
     ],
